@@ -137,5 +137,23 @@ let run_op (op : string) (args : string list) : string =
           | Err e -> Buffer.add_string out ("err:" ^ string_of_error e ^ ";"); dead := true)
       (String.split_on_char ',' chunks);
     Buffer.contents out
+  (* ---- schemas ---- *)
+  | "schemaser", [ t ] ->
+    let s = schema_of_sexp (parse_sexp t) in
+    (match conv s with
+     | Some s' -> "ok " ^ hex_of_bytes (enc (b s)) ^ " " ^ hex_of_bytes (enc (o s')) ^ " " ^ string_of_schema s'
+     | None -> "noconv")
+  | "schemade", [ bs ] ->
+    string_of_res (fun (s, rest) -> string_of_schema s ^ " " ^ hex_of_bytes rest) (schema_de (bytes_of_hex bs))
+  | "key", [ path; t ] ->
+    let s = schema_of_sexp (parse_sexp t) in
+    let p = bytes_of_hex path in
+    let show = function Some k -> hex_of_bytes k | None -> "noarm" in
+    show (key_const p s) ^ " " ^ show (key_owned p s) ^ " " ^ hex_of_bytes (spec_key p s)
+  | "pseudocode", [ t ] -> string_of_res hex_of_bytes (pseudocode (schema_of_sexp (parse_sexp t)))
+  | "usedtypes", [ t ] ->
+    string_of_res
+      (fun l -> String.concat " | " (List.sort_uniq compare (List.map string_of_schema l)))
+      (used_types (schema_of_sexp (parse_sexp t)))
   | _ -> failwith ("unknown op " ^ op)
 
